@@ -93,6 +93,14 @@ package main
 // The emitted bytes depend on schema content and options only. The directory of an
 // OUTPUT path is taken to create it before writing; it names a place to write to and
 // never reaches the bytes written.
+// ---- every input named on the command line is processed (C18, C20) ------------------
+// The files handed to the generator are the positional arguments themselves, each of
+// them, in order: an argument that is dropped or rewritten on the way is an input
+// whose errors no longer fail the run and whose types silently go missing.
+//@ func init$1@inputs
+//@   props C18 C20
+//@   arg-from DoFile 0 range:param:args
+
 //@ func init$1@environment
 //@   props C12
 //@   envdep Dir: the directory of an output file is created before the file is written; the name does not reach the emitted bytes
